@@ -10,7 +10,7 @@ from ..core import AnalysisError, Ctx, norm
 from ..pyfacts import dotted, calls_in
 
 META = {
-    "explanation": "Composition argument over the trusted collections.OrderedDict: PAI evaluates every keyed method of CaseInsensitiveOrderedDict with an opaque mixed-case string key and with a non-string key and records what reaches the superclass (K1); the key-folding helper (found by role: what __setitem__ wraps the key in) is evaluated on both type tags (K0); the set of overridden methods is compared with the frozen table of OrderedDict/dict methods that can insert or look up a key (K2); update() goes through the folding constructor, __init__ hands every argument to the superclass constructor, which stores through the overridden __setitem__ (K3); __missing__ evaluated for the three cases factory-less / object-list key / other key (K4); copy, deepcopy and pickle support carry default_factory and all items, deepcopy through copy.deepcopy (K5).",
+    "explanation": "Composition argument over the trusted collections.OrderedDict: PAI evaluates every keyed method of CaseInsensitiveOrderedDict with an opaque mixed-case string key and with a non-string key and records what reaches the superclass (K1); the key-folding helper (found by role: what __setitem__ wraps the key in) is evaluated on both type tags (K0); the set of overridden methods is compared with the frozen table of OrderedDict/dict methods that can insert or look up a key (K2); update() goes through the folding constructor, __init__ hands every argument to the superclass constructor, which stores through the overridden __setitem__ (K3); __missing__ evaluated for the three cases factory-less / object-list key / other key (K4); copy, deepcopy and pickle support carry default_factory and all items, deepcopy through copy.deepcopy (K5). K5 also evaluates __copy__ as resolved for each dictionary class: same class, same default_factory, same items, a new object.",
     "level_text": "Every overridden method is evaluated abstractly for all string keys at once (an opaque key atom) - the key that reaches OrderedDict is shown to be lower(key) on every path; together with the exhaustive list of inserting methods this gives the invariant 'stored keys are lower-case', from which equivalence with an ordered dict keyed by lower-cased keys follows by OrderedDict's own contract. Operation sequences are not replayed.",
     "level_note": "Trusted: CPython's OrderedDict (ordering, update/fromkeys/__ior__ going through __setitem__), copy and pickle protocols. Frozen stdlib facts are listed in the checker (INSERTING / KEYED tables).",
     "technique": "abstract interpretation (PAI) of each dict method with a recorder on superclass calls + override-exhaustiveness table + AST dataflow rules",
